@@ -327,6 +327,23 @@ pub fn check_request(world: &World, q: &ReqSpec) -> Result<bool, String> {
         if before_n != after_n {
             return Err(format!("after re-normalisation the restored request matches {after_n:?}, original {before_n:?}; json {j}"));
         }
+        // optional request fields that are absent stay absent (no reception time, no client address, no sampling
+        // override): an older proxy sends such requests, and date/time triggers then see "no time", not "now"
+        {
+            let mut bare = request.clone();
+            bare.created_at = None;
+            bare.remote_addr = None;
+            bare.sampling_override = None;
+            let jb = serde_json::to_string(&bare).map_err(|e| format!("serialise request: {e}"))?;
+            let back: Request = serde_json::from_str(&jb).map_err(|e| format!("the serialised request does not deserialise: {e}: {jb}"))?;
+            if back.created_at.is_some() || back.remote_addr.is_some() || back.sampling_override.is_some() {
+                return Err(format!("absent optional request fields came back filled in: created_at {:?}, remote_addr {:?}, sampling_override {:?}; json {jb}", back.created_at, back.remote_addr, back.sampling_override));
+            }
+            let (m0, m1) = (ids_of(&router.match_request(&bare)), ids_of(&router.match_request(&back)));
+            if m0 != m1 {
+                return Err(format!("a request without reception time / client address matches {m0:?}, restored from JSON {m1:?}; json {jb}"));
+            }
+        }
         // the legacy wire format (older agents): no `path_and_query_v2`; the proxy re-normalises and must match alike
         if let Ok(Value::Object(mut m)) = serde_json::from_str::<Value>(&j) {
             if m.remove("path_and_query_v2").is_some() {
